@@ -209,7 +209,12 @@ impl GroupStorage for MdkSqliteStorage {
 
             let messages_iter = stmt
                 .query_map(
-                    params![mls_group_id.as_slice(), limit as i64, offset as i64],
+                    params![
+                        mls_group_id.as_slice(),
+                        limit as i64,
+                        // an offset beyond i64::MAX is beyond any table: do not let it wrap negative
+                        i64::try_from(offset).unwrap_or(i64::MAX)
+                    ],
                     db::row_to_message,
                 )
                 .map_err(into_group_err)?;
